@@ -9,11 +9,14 @@ open Mio Mio.Stream
 def wsReceive : WsConn → List WsAns → Nat → WsRecv
   | c, _, 0 => { conn := c, outs := [], status := none }
   | c, sched, fuel + 1 =>
-    let deliver (m : Bytes) (c' : WsConn) (sched' : List WsAns) : WsRecv :=
-      if c'.sock = [] then { conn := c', outs := [m], status := some .waitNextEvent }   -- peek: WouldBlock
-      else
-        let r := wsReceive c' sched' fuel
-        { r with outs := m :: r.outs }
+    let deliver (m : WsMsg) (c' : WsConn) (sched' : List WsAns) : WsRecv :=
+      match m with
+      | none => wsReceive c' sched' fuel
+      | some data =>
+        if c'.sock = [] then { conn := c', outs := [data], status := some .waitNextEvent }   -- peek: WouldBlock
+        else
+          let r := wsReceive c' sched' fuel
+          { r with outs := data :: r.outs }
     match c.buf with
     | m :: ms => deliver m { c with buf := ms } sched
     | [] =>
@@ -30,8 +33,8 @@ def wsReceive : WsConn → List WsAns → Nat → WsRecv
 /-- three messages arrive back to back and the codec reads them in one socket access: one is
 delivered, two stay in the codec's buffer although `WaitNextEvent` was reported -/
 theorem asfound_ws_strands_buffered_messages :
-    let r := wsReceive { sock := [[1], [2], [3]], buf := [] } [.fill 3, .wouldBlock] 10
-    r.outs = [[1]] ∧ r.status = some .waitNextEvent ∧ r.conn.buf = [[2], [3]] := by decide
+    let r := wsReceive { sock := [some [1], some [2], some [3]], buf := [] } [.fill 3, .wouldBlock] 10
+    r.outs = [[1]] ∧ r.status = some .waitNextEvent ∧ r.conn.buf = [some [2], some [3]] := by decide
 
 /-- F8: two threads sending on one FramedTcp endpoint without the send lock: the unit of
 interleaving is one `write`.  Thread A writes its prefix, thread B its prefix, then the payloads. -/
